@@ -16,6 +16,7 @@ from construct.core import Int16ul
 from construct.core import Computed
 from construct.core import Tell
 from construct.expr import this
+import struct
 
 from smpl_extract.base import Element
 from smpl_extract.structural import T_ROUTINE
@@ -89,7 +90,7 @@ class PartitionAdapter(ElementAdapter):
                 context, 
                 path
             )
-        except InvalidCharacter:
+        except (InvalidCharacter, struct.error):
             raise ConstructError
 
         if partition_container.header.size <= 0:
